@@ -24,9 +24,11 @@ func RebaseRef(baseRef string, ref string) string {
 		return ref
 	}
 
-	parts := strings.Split(ref, "#")
+	// NOTE: once unescaped, the fragment may itself contain a "#" (e.g. a definition named "a#b")
+	const twoParts = 2
+	parts := strings.SplitN(ref, "#", twoParts)
 
-	baseParts := strings.Split(baseRef, "#")
+	baseParts := strings.SplitN(baseRef, "#", twoParts)
 	baseURL, _ := url.Parse(baseParts[0])
 	if strings.HasPrefix(ref, "#") {
 		if baseURL.Host == "" {
